@@ -91,6 +91,16 @@ Theorem C09_spurious_refuted :
 Proof. exact spurious_refuted. Qed.
 Print Assumptions C09_spurious_refuted.
 
+(* open finding C09/payload/overlapping-batch/non-canonical-index: a batch writes below z[0] and then replaces z[-1] (the same node); the replaced
+   node -- a root of its own after the call -- is told about the location z[0].a, which does not exist below it *)
+Theorem C09_overlapping_batch_refuted :
+  exists e, In e (events_of (step_trace q0 st_ov batch_ov)) /\
+            locate (fst (step q0 st_ov batch_ov)) (ev_id e) = Some (1%nat, []) /\ ev_path e = [] /\
+            map fst (ev_payload e) = [[kz9; KI 0; ka]] /\
+            get_at (fst (step q0 st_ov batch_ov)) (1%nat, [kz9; KI 0; ka]) = None.
+Proof. exact overlap_refuted. Qed.
+Print Assumptions C09_overlapping_batch_refuted.
+
 (* ---- freshness of the derived facts ----------------------------------------------------------------------------------------------------------- *)
 (* Vocabulary (Model/SymCoreEventsSpec.v): an extended state [xs] is a forest plus the three memo tables (sym_puresymbolic, sym_missing,
    sym_nondefault; is_partial is read off sym_missing, is_deterministic is not memoised); [report_x c n] is what node n answers with
